@@ -58,6 +58,26 @@ def real_guards(guards) -> List[Cond]:
     return out
 
 
+
+def drop_implied_any(guards, loop_vars) -> List[Cond]:
+    """guards without those of the form any(X[:]) that are implied by another guard of the same store: when the per-element test X[k] is itself among the guards, the
+    vectorised `any` of the same test over the whole array (an early return taken when NO element needs the update) holds whenever the element test does, and adds nothing"""
+    out = []
+    for g in guards:
+        implied = False
+        if g.kind == "truth":
+            rg = repr(g)
+            for h in guards:
+                if h is g or h.kind != "cmp":
+                    continue
+                for v in loop_vars:
+                    if rg == f"truth(any(bool({repr(h).replace(v, ':')})))" or rg == f"truth(any({repr(h).replace(v, ':')}))":
+                        implied = True
+        if not implied:
+            out.append(g)
+    return out
+
+
 def cond_atoms(c: Cond) -> List[Cond]:
     """flatten conjunctions"""
     return c.flat_and()
